@@ -17,10 +17,12 @@ type cacheIn struct {
 	Seed    int64 `json:"seed"`
 	MissPct int   `json:"miss"`
 	DropPct int   `json:"drop"`
-	Reuse   bool  `json:"reuse"` // Reset and reuse one builder instead of a new builder per build
+	Reuse   bool  `json:"reuse"`            // Reset and reuse one builder instead of a new builder per build
+	Retain  bool  `json:"retain,omitempty"` // the provider keeps the very slice Set was given (a plain map provider) instead of copying it
 }
 
 type lossyCache struct {
+	retain       bool
 	r            *Rand
 	miss, drop   int
 	data         map[be.ConjID][]byte
@@ -40,6 +42,10 @@ func (c *lossyCache) Set(id be.ConjID, data []byte) {
 	if c.r.Chance(c.drop) {
 		return
 	}
+	if c.retain {
+		c.data[id] = data
+		return
+	}
 	c.data[id] = append([]byte{}, data...)
 }
 
@@ -56,7 +62,7 @@ func execCache(raw json.RawMessage) (res execResult, err error) {
 	if e != nil {
 		return res, e
 	}
-	cache := &lossyCache{r: &Rand{s: uint64(in.Seed)}, miss: in.MissPct, drop: in.DropPct, data: map[be.ConjID][]byte{}}
+	cache := &lossyCache{retain: in.Retain, r: &Rand{s: uint64(in.Seed)}, miss: in.MissPct, drop: in.DropPct, data: map[be.ConjID][]byte{}}
 	c := in.Case
 	var lits []string
 	var shared *be.IndexerBuilder
@@ -164,8 +170,32 @@ func init() {
 						thr = 512
 					}
 					add(cacheIn{Cache: true, Case: c, Thr: thr, Seed: 11, MissPct: 0, DropPct: 0})
+					add(cacheIn{Cache: true, Case: c, Thr: thr, Seed: 13, MissPct: 0, DropPct: 0, Retain: true})
 					add(cacheIn{Cache: true, Case: c, Thr: thr, Seed: 12, MissPct: 30, DropPct: 30})
 				}
+			}
+			// dedicated: a provider that keeps the very slice it is handed, and several cached conjunctions whose records
+			// have the same encoded length (anything serialised into a builder-owned buffer would be overwritten)
+			for _, kind := range []string{"kgroups", "compact"} {
+				ints := func(k, off int) TV {
+					l := make([]TV, k)
+					for i := range l {
+						l[i] = tvInt("int", int64(off+i))
+					}
+					return tvSlice("[]int", l...)
+				}
+				c := eCase{Kind: kind, Policy: "error"}
+				c.Docs = []eDoc{
+					{ID: 1, Cons: []eConj{{{F: 0, Inc: true, V: ints(5, 0)}}}},
+					{ID: 2, Cons: []eConj{{{F: 0, Inc: true, V: ints(5, 10)}}}},
+					{ID: 3, Cons: []eConj{{{F: 0, Inc: true, V: ints(5, 20)}}}},
+					{ID: 4, Cons: []eConj{{{F: 0, Inc: false, V: ints(5, 30)}, {F: 3, Inc: true, V: ints(1, 7)}}}},
+				}
+				for _, a := range []int64{0, 4, 10, 14, 20, 24, 30, 34, 40} {
+					c.Queries = append(c.Queries, eQuery{A: []eAssign{{F: 0, V: tvInt("int", a)}, {F: 3, V: tvInt("int", 7)}}})
+				}
+				add(cacheIn{Cache: true, Case: c, Thr: 2, Seed: 41, MissPct: 0, DropPct: 0, Retain: true})
+				add(cacheIn{Cache: true, Case: c, Thr: 2, Seed: 42, MissPct: 0, DropPct: 0, Retain: true, Reuse: true})
 			}
 			// dedicated: pattern field whose SHORT keywords sit in cached conjunctions while the conjunctions that are
 			// parsed on every build carry longer ones (anything a holder learns only while parsing is missing on a
@@ -297,7 +327,7 @@ func init() {
 					c.Queries = append(c.Queries, eQuery{A: a})
 				}
 				c.Queries = append(c.Queries, eQuery{})
-				add(cacheIn{Cache: true, Case: c, Thr: thr, Seed: int64(r.U64() >> 1), MissPct: pick(r, []int{0, 0, 30, 100}), DropPct: pick(r, []int{0, 0, 30}), Reuse: r.Chance(20)})
+				add(cacheIn{Cache: true, Case: c, Thr: thr, Seed: int64(r.U64() >> 1), MissPct: pick(r, []int{0, 0, 30, 100}), DropPct: pick(r, []int{0, 0, 30}), Reuse: r.Chance(20), Retain: r.Bool()})
 			}
 		},
 		exec: execCache,
